@@ -1,5 +1,244 @@
-"""Kani leg (filled in below)."""
+"""Kani leg: harness modules appended to a scratch copy of the real crates.
+
+Mechanical edits of the scratch copy (all logged in the evidence file):
+  K1  thread_local! LOCAL_SPAN_STACK -> static single-thread lazy cell with the same try_with
+      (Kani has one thread; a lazy TLS whose value has a destructor crashes kani-compiler)
+  K2  dev-dependencies / benches / rust-toolchain.toml removed, cargo source replaced by /verif/vendor
+  K3  `#[cfg(kani)] #[path = ".."] mod verif_*;` appended to the crate roots named in harnesses.json
+  K5  visibility of the private items listed in harnesses.json widened to pub(crate)
+Nothing is written to /repo.
+"""
+import json
+import os
+import re
+import shutil
+import subprocess
+import time
+from concurrent.futures import ThreadPoolExecutor
+
+VERIF = os.path.dirname(os.path.dirname(os.path.abspath(__file__)))
+REPO = os.environ.get('VERIF_REPO', '/repo')
+VENDOR = os.path.join(VERIF, 'vendor')
+
+
+class KFailure:
+    def __init__(self, obligation, message, rendered, replay_test=None):
+        self.kind = 'kani'
+        self.obligation = obligation
+        self.fn = obligation
+        self.message = message
+        self.rendered = rendered
+        self.line = 0
+        self.replay_test = replay_test
+
+    def as_dict(self):
+        return {'kind': 'kani', 'obligation': self.obligation, 'message': self.message, 'verifier_output': self.rendered}
+
+
+class KResult:
+    def __init__(self, name, spec):
+        self.name, self.spec = name, spec
+        self.status = 'ok'   # ok | failed | infra
+        self.infra = None
+        self.failures = []
+        self.n_checks = 0
+        self.wall_s = 0.0
+        self.cmd = ''
+        self.trusted = []
+        self.checks_failed = []
+
+    def obligation_names(self):
+        return ['kani::%s::%s' % (self.name, o) for o in self.spec.get('obligations', ['all_assertions'])]
+
+    def failed_names(self):
+        return [f.obligation for f in self.failures]
+
+
+def load_specs():
+    return json.load(open(os.path.join(VERIF, 'kani', 'harnesses.json')))
+
+
+K1_OLD = re.compile(r'thread_local!\s*\{\s*pub static LOCAL_SPAN_STACK: Rc<RefCell<LocalSpanStack>> = Rc::new\(RefCell::new\(LocalSpanStack::with_capacity\(DEFAULT_SPAN_STACK_SIZE\)\)\);\s*\}')
+K1_NEW = '''// K1 (verif): single-threaded stand-in for the thread_local! (same try_with signature)
+pub struct VerifLocalKey;
+pub static LOCAL_SPAN_STACK: VerifLocalKey = VerifLocalKey;
+static mut VERIF_LOCAL_SPAN_STACK: Option<Rc<RefCell<LocalSpanStack>>> = None;
+impl VerifLocalKey {
+    pub fn try_with<F, R>(&'static self, f: F) -> Result<R, std::thread::AccessError>
+    where F: FnOnce(&Rc<RefCell<LocalSpanStack>>) -> R {
+        unsafe {
+            if (*std::ptr::addr_of!(VERIF_LOCAL_SPAN_STACK)).is_none() {
+                *std::ptr::addr_of_mut!(VERIF_LOCAL_SPAN_STACK) = Some(Rc::new(RefCell::new(LocalSpanStack::with_capacity(VERIF_STACK_CAPACITY))));
+            }
+            Ok(f((*std::ptr::addr_of!(VERIF_LOCAL_SPAN_STACK)).as_ref().unwrap()))
+        }
+    }
+}
+pub const VERIF_STACK_CAPACITY: usize = 8;
+'''
+
+
+def prepare_scratch(work, log):
+    """copy the crates, apply K1..K5; returns the directory"""
+    d = os.path.join(work, 'krepo')
+    if os.path.exists(d):
+        return d
+    subprocess.run(['rsync', '-a', '--exclude', 'target', '--exclude', '.git', '--exclude', 'rust-toolchain.toml', REPO + '/', d + '/'], check=True)
+    specs = load_specs()
+    # K2
+    for crate in ('fastrace', 'fastrace-jaeger', 'fastrace-datadog', 'fastrace-opentelemetry', 'fastrace-futures', 'fastrace-macro'):
+        p = os.path.join(d, crate, 'Cargo.toml')
+        if not os.path.exists(p):
+            continue
+        s = open(p).read()
+        out_lines, skip = [], False
+        for ln in s.split('\n'):
+            if re.match(r'^\s*\[', ln):
+                skip = bool(re.match(r'^\s*\[(dev-dependencies|\[bench\]|\[example\]|\[test\])', ln))
+            if not skip:
+                out_lines.append(ln)
+        s2 = '\n'.join(out_lines)
+        if s2 != s:
+            log.append('K2 %s/Cargo.toml: dev-dependencies/bench sections removed' % crate)
+        open(p, 'w').write(s2)
+        for sub in ('benches', 'examples', 'tests'):
+            shutil.rmtree(os.path.join(d, crate, sub), ignore_errors=True)
+    os.makedirs(os.path.join(d, '.cargo'), exist_ok=True)
+    open(os.path.join(d, '.cargo', 'config.toml'), 'w').write(
+        '[source.crates-io]\nreplace-with = "verif-vendor"\n[source.verif-vendor]\ndirectory = "%s"\n[net]\noffline = true\n' % VENDOR)
+    log.append('K2 cargo source replaced by %s' % VENDOR)
+    # K1
+    p = os.path.join(d, 'fastrace/src/local/local_span_stack.rs')
+    s = open(p).read()
+    s2, n = K1_OLD.subn(K1_NEW, s)
+    if n != 1:
+        raise RuntimeError('K1: thread_local LOCAL_SPAN_STACK not found in its expected form (lost anchor)')
+    open(p, 'w').write(s2)
+    log.append('K1 LOCAL_SPAN_STACK thread_local -> static single-thread cell (capacity 8 instead of 4096)')
+    # K5
+    from . import rsx
+    for ent in specs.get('widen', []):
+        p = os.path.join(d, ent['file'])
+        src = open(p).read()
+        ins = []
+        items = rsx.parse_items(src)
+        for fpath in ent.get('fns', []):
+            found = [it for it in rsx.find_item(items, fpath, 'fn')]
+            if len(found) != 1:
+                raise RuntimeError('K5: fn %s found %d times in %s (lost anchor)' % (fpath, len(found), ent['file']))
+            if not found[0].vis:
+                ins.append(found[0].kw_a)
+            log.append('K5 %s: fn %s widened to pub(crate)' % (ent['file'], fpath))
+        for fld in ent.get('fields', []):
+            sname, fname = fld.split('.')
+            found = rsx.find_item(items, sname, 'struct')
+            if len(found) != 1:
+                raise RuntimeError('K5: struct %s found %d times in %s (lost anchor)' % (sname, len(found), ent['file']))
+            st = found[0]
+            body = src[st.body_a:st.body_b]
+            m = re.search(r'(?m)^(\s*)(%s\s*:)' % re.escape(fname), body)
+            if not m:
+                raise RuntimeError('K5: field %s not found (lost anchor)' % fld)
+            ins.append(st.body_a + m.start(2))
+            log.append('K5 %s: field %s widened to pub(crate)' % (ent['file'], fld))
+        for pos in sorted(ins, reverse=True):
+            src = src[:pos] + 'pub(crate) ' + src[pos:]
+        open(p, 'w').write(src)
+    # K3
+    for ent in specs.get('modules', []):
+        p = os.path.join(d, ent['append_to'])
+        s = open(p).read()
+        s += '\n#[cfg(kani)]\n#[path = "%s"]\nmod %s;\n' % (os.path.join(VERIF, 'kani', ent['file']), ent['mod'])
+        open(p, 'w').write(s)
+        log.append('K3 %s: harness module %s appended' % (ent['append_to'], ent['file']))
+    return d
+
+
+def run_one(name, spec, krepo, tier):
+    r = KResult(name, spec)
+    t0 = time.time()
+    pkg = spec.get('package', 'fastrace')
+    feats = spec.get('features', 'enable')
+    cmd = ['cargo', 'kani', '-p', pkg, '-Z', 'function-contracts', '-Z', 'stubbing', '--harness', spec['harness'], '--output-format', 'terse']
+    if feats:
+        cmd += ['--features', feats]
+    cmd += spec.get('args', [])
+    r.cmd = 'cargo kani -p %s %s-Z function-contracts -Z stubbing --harness %s' % (pkg, ('--features %s ' % feats) if feats else '', spec['harness'])
+    timeout = spec.get('timeout_thorough', 2400) if tier == 'thorough' else spec.get('timeout', 900)
+    mem_kb = int(os.environ.get('VERIF_KANI_MEM_KB', '20000000'))
+    env = dict(os.environ, CARGO_NET_OFFLINE='true', CARGO_TARGET_DIR=os.path.join(os.path.dirname(krepo), 'ktarget-%s' % (feats or 'nofeat')))
+    env.pop('RUSTUP_TOOLCHAIN', None)
+    try:
+        p = subprocess.run(['bash', '-c', 'ulimit -v %d; exec "$@"' % mem_kb, 'kani'] + cmd, cwd=krepo, capture_output=True, text=True, timeout=timeout, env=env)
+    except subprocess.TimeoutExpired:
+        r.status, r.infra = 'infra', 'timed out after %ds' % timeout
+        r.wall_s = time.time() - t0
+        return r
+    out = p.stdout + '\n' + p.stderr
+    r.wall_s = time.time() - t0
+    r.raw = out
+    m = re.search(r'\*\* (\d+) of (\d+) failed', out)
+    if m:
+        r.n_checks = int(m.group(2))
+    if 'VERIFICATION:- SUCCESSFUL' in out:
+        r.status = 'ok'
+    elif 'VERIFICATION:- FAILED' in out:
+        r.status = 'failed'
+        fails = re.findall(r'Failed Checks: (.*)', out)
+        # unwinding assertion failures mean the bound is too small: undecided, not a violation
+        if any('unwinding assertion' in f for f in fails) and all(('unwinding assertion' in f) for f in fails):
+            r.status, r.infra = 'infra', 'unwinding bound too small: ' + '; '.join(fails[:3])
+            return r
+        tail = '\n'.join(out.strip().split('\n')[-40:])
+        if not fails or 'run out of memory' in out or 'CBMC failed' in out:
+            r.status, r.infra = 'infra', 'CBMC did not finish (out of memory / crashed): ' + ' | '.join(out.strip().split('\n')[-6:])
+            return r
+        for f in fails:
+            if 'unwinding assertion' in f:
+                continue
+            r.failures.append(KFailure('kani::%s::%s' % (name, _ob_for(f, spec)), f.strip(), tail))
+        r.checks_failed = fails
+    else:
+        r.status = 'infra'
+        r.infra = 'no verification result (exit %d): %s' % (p.returncode, '\n'.join(out.strip().split('\n')[-15:]))
+    for st in re.findall(r'- Stub: (.*)', out):
+        pass
+    r.trusted = ['kani stub: %s' % s for s in spec.get('stubs', [])] + ['kani: %s' % s for s in spec.get('assumes', [])]
+    return r
+
+
+def _ob_for(failmsg, spec):
+    # assertion messages are written as "ob_name: text" in the harnesses
+    m = re.match(r'\s*([A-Za-z_0-9]+):', failmsg)
+    if m and m.group(1) in spec.get('obligations', []):
+        return m.group(1)
+    return 'safety(%s)' % ' '.join(failmsg.split())[:80] if spec.get('obligations') else 'all_assertions'
 
 
 def run_harnesses(ids, tier, work):
-    return []
+    specs = load_specs()['harnesses']
+    log = []
+    try:
+        krepo = prepare_scratch(work, log)
+    except Exception as e:
+        res = []
+        for i in ids:
+            r = KResult(i, specs.get(i, {}))
+            r.status, r.infra = 'infra', 'scratch preparation failed: %s' % e
+            res.append(r)
+        return res
+    todo = [i for i in ids if tier == 'thorough' or specs[i].get('tier', 'quick') == 'quick']
+    res = []
+    # one warm-up build per feature set so that parallel harness runs do not race on cargo's lock
+    by_feat = {}
+    for i in todo:
+        by_feat.setdefault((specs[i].get('package', 'fastrace'), specs[i].get('features', 'enable')), []).append(i)
+    for key, lst in by_feat.items():
+        first = run_one(lst[0], specs[lst[0]], krepo, tier)
+        first.edits = log
+        res.append(first)
+        with ThreadPoolExecutor(max_workers=int(os.environ.get('VERIF_KANI_JOBS', '4'))) as ex:
+            for r in ex.map(lambda i: run_one(i, specs[i], krepo, tier), lst[1:]):
+                r.edits = log
+                res.append(r)
+    return res
